@@ -812,6 +812,11 @@ pub fn worker_main(args: &Args, w: usize, n: usize) -> ! {
                 }
             }
             let status = run_child(&sc_file, &case_dir, inject, false, 20_000);
+            if matches!(inject, Inject::ReadOnlyDir | Inject::ReadOnlyDirIo { .. }) {
+                // the child took the write permission off the directory
+                use std::os::unix::fs::PermissionsExt;
+                let _ = std::fs::set_permissions(&case_dir, std::fs::Permissions::from_mode(0o755));
+            }
             let fired = std::fs::read_to_string(case_dir.join("fired.txt")).ok();
             let oplog: Option<Value> = std::fs::read_to_string(case_dir.join("oplog.json"))
                 .ok()
@@ -1019,6 +1024,10 @@ pub fn replay_main(args: &Args, file: &str) -> ! {
         }
     }
     let status = run_child(&sc_file, &case_dir, &inject, false, 20_000);
+    {
+        use std::os::unix::fs::PermissionsExt;
+        let _ = std::fs::set_permissions(&case_dir, std::fs::Permissions::from_mode(0o755));
+    }
     let (violation, state) = judge(&s, &inject, &status, &case_dir, &new_ref, old_ref.as_ref());
     println!("replay {sid} {}: child ended '{status}', destination state '{state}'", inject.encode());
     println!("files now: {:?}", read_dir_files(&case_dir).iter().map(|(n, b)| (n.clone(), b.len())).collect::<Vec<_>>());
